@@ -296,13 +296,20 @@ def pens_match(got, want):
   return True
 
 
+class Rows(list):
+  """[(row, stripped text, styles)] plus the left-most occupied column of the screen"""
+  left = None
+
+
 def screen_rows(snapshot):
   """[(row, stripped text, styles)] of the rows showing at least one non-space character, in row order"""
-  out = []
+  out = Rows()
   for r in sorted(snapshot):
     t, s = row_text(snapshot[r])
     if t.strip(" "):
       out.append((r, t.strip(" "), s))
+      c = min(snapshot[r])
+      out.left = c if out.left is None else min(out.left, c)
   return out
 
 
@@ -807,6 +814,10 @@ class SccHarness(Harness):
               cr = doc.get_cell_resolution().rows
               top = origin.y.value * cr / 100 - 2 + 1 + rows[0][0]
               ex.prove(abs(top - wrows[0][0]) <= 0.5, "C08:top-row", dict(det, _got=float(top), _want=wrows[0][0]))
+              if origin.x.units is styles.LengthType.Units.pct and getattr(wrows, "left", None) is not None:
+                # the caption's left edge: left-most occupied cell of the screen (safe area starts 4 cells into the 40-cell root)
+                left = origin.x.value * doc.get_cell_resolution().columns / 100 - 4
+                ex.prove(abs(left - wrows.left) <= 0.5, "C08:left-column", dict(det, _got=float(left), _want=wrows.left))
             else:
               ex.fail("C08:top-row", dict(det, why="no percentage origin"))
           else:
